@@ -149,18 +149,27 @@ pub fn run_c06_case(p: &Program, cfg: &Config, max_iters_for_injection: usize) -
     if matches!(dry.status, LoomStatus::Completed) && dry.iterations <= max_iters_for_injection && tr.max_path >= 2 && rep.violations.is_empty() {
         let need = tr.max_path;
         let mut c2 = cfg.clone();
-        c2.max_branches = need - 1;
-        let (run, _) = trace_run(p, &c2);
-        limit_faults += 1;
-        if !matches!(&run.status, LoomStatus::Failed { class: FailClass::BranchLimit, .. }) {
-            rep.violations.push(Violation {
-                kind: "limit".into(),
-                detail: format!("the longest execution needs {} branches; with max_branches = {} the model should have panicked with the branch-limit message, got {:?}", need, need - 1, run.status),
-                known: None,
-                evidence: json!({"need": need}),
-            });
+        // every budget below the need: the limit strikes at a different operation each time
+        // (inside lock hand-overs, condvar waits, drops, ...)
+        let budgets: Vec<usize> = if need <= 40 { (1..need).collect() } else { vec![1, need / 3, need / 2, need - 2, need - 1] };
+        for b in budgets {
+            c2.max_branches = b;
+            let (run, _) = trace_run(p, &c2);
+            limit_faults += 1;
+            if !matches!(&run.status, LoomStatus::Failed { class: FailClass::BranchLimit, .. }) {
+                rep.violations.push(Violation {
+                    kind: "limit".into(),
+                    detail: format!("the longest execution needs {} branches; with max_branches = {} the model should have panicked with the branch-limit message, got {:?}", need, b, run.status),
+                    known: None,
+                    evidence: json!({"need": need, "max_branches": b}),
+                });
+                break;
+            }
+            check_probe(&mut rep, format!("the branch limit ({}) was exceeded", b));
+            if !rep.violations.is_empty() {
+                break;
+            }
         }
-        check_probe(&mut rep, format!("the branch limit ({}) was exceeded", need - 1));
         c2.max_branches = need;
         let (run, tr3) = trace_run(p, &c2);
         if !matches!(run.status, LoomStatus::Completed) || tr3.iter_hashes != tr.iter_hashes {
@@ -170,6 +179,29 @@ pub fn run_c06_case(p: &Program, cfg: &Config, max_iters_for_injection: usize) -
                 known: None,
                 evidence: json!({"need": need}),
             });
+        }
+    }
+    // programs whose fault-free run already fails (deadlock, race, leak): squeeze the branch budget
+    // as well - whatever strikes first must unwind to the caller and leave the process clean
+    if matches!(dry.status, LoomStatus::Failed { .. }) && dry.iterations <= max_iters_for_injection && rep.violations.is_empty() {
+        let mut c2 = cfg.clone();
+        for b in 1..=24usize {
+            c2.max_branches = b;
+            let (run, _) = trace_run(p, &c2);
+            limit_faults += 1;
+            if matches!(run.status, LoomStatus::Completed | LoomStatus::Capped) {
+                rep.violations.push(Violation {
+                    kind: "limit".into(),
+                    detail: format!("the unlimited run fails ({}) but with max_branches = {} the model completed", rep.status, b),
+                    known: None,
+                    evidence: json!({"max_branches": b}),
+                });
+                break;
+            }
+            check_probe(&mut rep, format!("max_branches = {} on a program that fails", b));
+            if !rep.violations.is_empty() {
+                break;
+            }
         }
     }
     rep.extra.insert("fault_branch_limit_fired".into(), limit_faults);
